@@ -922,13 +922,21 @@ class Frame:
             if exits:
                 if spec.on_break is None:
                     raise Unsupported("break inside cut loop %s#%s without on_break spec" % (self.qualname, lname))
-                for label, f in spec.on_break(EnvView(self.env, {'it': it, 'count': count, 'old': spec.old_env, 'fr': self}), self):
+                for label, f in spec.on_break(EnvView(self.env, {'it': it, 'count': count, 'old': spec.old_env, 'fr': self, 'where': 'break',
+                                                                 'forall': O.forall}), self):
                     ctx.oblige("%s/break:%s" % (lname, label), f, 'loop-pres')
                 raise PathEnd()
             for label, f in inv_at(it + 1, 'pres'):
                 ctx.oblige("%s/preserved:%s" % (lname, label), f, 'loop-pres')
             raise PathEnd()
         # (b) after the loop
+        if is_for and spec.on_break is not None:
+            # the loop may have been left through `break`: its state is described by on_break
+            if ctx.choose(2) == 0:
+                for label, f in spec.on_break(EnvView(self.env, {'it': it, 'count': count, 'old': spec.old_env, 'fr': self, 'where': 'assume',
+                                                                 'forall': O.forall_hyp}), self):
+                    ctx.assume(f)
+                return
         if is_for:
             if seq.done is not None:
                 ctx.assume(seq.done(it))
@@ -941,7 +949,8 @@ class Frame:
                 # loop may also have been left through break: state described by on_break post
                 k = ctx.choose(2)
                 if k == 0:
-                    for label, f in spec.on_break(EnvView(self.env, {'it': it, 'count': count, 'old': spec.old_env, 'fr': self}), self):
+                    for label, f in spec.on_break(EnvView(self.env, {'it': it, 'count': count, 'old': spec.old_env, 'fr': self, 'where': 'assume',
+                                                                     'forall': O.forall_hyp}), self):
                         ctx.assume(f)
                     return
             c = self.truth(self.ev(st.test))
